@@ -1,6 +1,7 @@
 package main
 
 import (
+	"bytes"
 	"encoding/json"
 	"fmt"
 	"os"
@@ -580,6 +581,10 @@ func configMain(args mon.Args) {
 			udpSizePhase(run, bin, dir)
 			run.Finish()
 		}
+		if bytes.Contains(d.Case, []byte(`"host_limit"`)) {
+			cpuLimitedDefaults(run, bin, dir)
+			run.Finish()
+		}
 		var cc cfgCase
 		json.Unmarshal(d.Case, &cc)
 		run.Seed, from, n = cc.Seed, cc.Index, 1
@@ -628,6 +633,7 @@ func configMain(args mon.Args) {
 	wg.Wait()
 	if args.Replay == "" {
 		udpSizePhase(run, bin, dir)
+		cpuLimitedDefaults(run, bin, dir)
 	}
 	// canary: a wrong expectation must be noticed
 	if args.Replay == "" {
@@ -644,7 +650,7 @@ func configMain(args mon.Args) {
 	}
 	run.Set("key_x_source_cells_covered", len(cells))
 	run.Set("keys_observed", len(ckeys))
-	run.SetRule("every observed key (4 UDP ports, 4 enable switches, 4 worker counts, stats port/address/format/enabled, pid file, log file, verbose, 2 cache files, cpu-cap, producer-enabled, dynamic-workers, ipfix-rpc-enabled: integer, string and boolean kinds) gets an independent subset of {VFLOW_* environment, configuration file, command line} by a Latin square over 16 collector processes (every key meets all 8 subsets), with a distinct value per source (a boolean source always disagrees with the one it overrides; in half of the processes a winning file/flag value of the worker counts, stats address, log file and cpu-cap is the built-in default itself, i.e. 200, the empty string, 100%); the -config option stands first, last or in the middle of the command line; string-valued keys are written plain, double-quoted or single-quoted in the file; in half of the processes the file begins with 6 or 70 KiB of comment lines, in a quarter it is reached through a symbolic link; boolean environment values use every spelling strconv.ParseBool takes (true/True/TRUE/1/t/T ...); thorough adds random subsets/values. The real binary is started and the effective value is read back behaviourally: UDP/TCP sockets of the process from /proc, Workers from /flow or /metrics, which endpoint answers, files that appear (pid, log, cache files after SIGTERM), the verbose banner. Expected = flag ?? file ?? env ?? built-in default. The four <protocol>-udp-size keys are covered by eight further processes (udpSizePhase): each key meets all 8 source subsets with its own value per source and key (400/700/1000 + 60 x key index; default 1500), ~50 datagrams of up to 1464 octets per protocol are sent and every line at the sink must equal the stand-alone decode of the datagram cut to the expected effective size (a case whose probes cannot tell the effective size from another candidate is inconclusive). distinct = source assignment")
+	run.SetRule("every observed key (4 UDP ports, 4 enable switches, 4 worker counts, stats port/address/format/enabled, pid file, log file, verbose, 2 cache files, cpu-cap, producer-enabled, dynamic-workers, ipfix-rpc-enabled: integer, string and boolean kinds) gets an independent subset of {VFLOW_* environment, configuration file, command line} by a Latin square over 16 collector processes (every key meets all 8 subsets), with a distinct value per source (a boolean source always disagrees with the one it overrides; in half of the processes a winning file/flag value of the worker counts, stats address, log file and cpu-cap is the built-in default itself, i.e. 200, the empty string, 100%); the -config option stands first, last or in the middle of the command line; string-valued keys are written plain, double-quoted or single-quoted in the file; in half of the processes the file begins with 6 or 70 KiB of comment lines, in a quarter it is reached through a symbolic link; boolean environment values use every spelling strconv.ParseBool takes (true/True/TRUE/1/t/T ...); thorough adds random subsets/values. The real binary is started and the effective value is read back behaviourally: UDP/TCP sockets of the process from /proc, Workers from /flow or /metrics, which endpoint answers, files that appear (pid, log, cache files after SIGTERM), the verbose banner. Expected = flag ?? file ?? env ?? built-in default. The four <protocol>-udp-size keys are covered by eight further processes (udpSizePhase): each key meets all 8 source subsets with its own value per source and key (400/700/1000 + 60 x key index; default 1500), ~50 datagrams of up to 1464 octets per protocol are sent and every line at the sink must equal the stand-alone decode of the datagram cut to the expected effective size (a case whose probes cannot tell the effective size from another candidate is inconclusive). Finally the collector is started with no source naming the worker counts under a CPU limit (taskset -c 0, GOMAXPROCS=2; thorough also two CPUs and GOMAXPROCS=1): the built-in default of 200 workers per protocol must be in force. distinct = source assignment")
 	run.Assume("keys without an external observable (mirror settings, topics with the rawSocket backend, mq-name) and the list-valued sflow-type-filter are not covered")
 	run.Finish()
 }
